@@ -401,6 +401,9 @@ fn check_hostile<M: ZooMsg + ?Sized>(w: &World, h: &Hostile, wire: &crate::c06::
     if w.consumed > w.pipe.delivered_total {
         return viol("O2-guard-bounds", "over-consume", "recv", format!("consumed {} > received {}", w.consumed, w.pipe.delivered_total));
     }
+    if let Some(x) = crate::oracle::receiver_conservation(w, "C10") {
+        return Some(x);
+    }
     // O4: frames wholly before the first edit are delivered intact and in order
     let q = bounds.iter().take_while(|b| b.1 <= h.first_edit).count();
     let msgs: Vec<(&Val, usize)> = w.recvs.iter().filter_map(|r| if let RecvOutcome::Msg { val, size, .. } = &r.outcome { Some((val, *size)) } else { None }).collect();
